@@ -73,6 +73,9 @@ def main():
         race = False
         if os.path.exists(os.path.join(src, "SEED_meta.txt")):
             race = "-race" in open(os.path.join(src, "SEED_meta.txt")).read()
+        elif os.path.exists(os.path.join(src, "meta.json")):
+            # a stored seed: the author's notes (which say whether the demonstration needs the race detector) are in meta.json
+            race = "-race" in json.load(open(os.path.join(src, "meta.json"))).get("needs_to_manifest_and_author_notes", "")
         pkgs = sorted(set("./" + p if p != "." else "." for p in demo_pkg.values()))
         demo_cmd = ["go", "test", "-vet=off", "-count=1", "-run", "TestSeededDemo"] + (["-race"] if race else []) + pkgs
         a = sh(demo_cmd, scratch)
